@@ -643,7 +643,7 @@ def replay(case):
         if case.get('family') == 'A':
             cfg = case['cfg']
             if cfg.get('size') not in (1, 2, 3, None):
-                return []
+                return None            # not a case this check generates: cannot be replayed
             cfg = {'size': cfg.get('size'), 'idle': (None if cfg.get('idle') is None else float(cfg['idle']))}
             acts = []
             for a in case.get('actions', []):
@@ -658,21 +658,21 @@ def replay(case):
             case = dict(case, n=max(1, min(8, int(case['n']))))
             case['faults'] = dict((k, v) for k, v in case.get('faults', {}).items() if v in ('eod4xx', 'thenclose'))
             if case.get('size') not in (1, 2, 3, None):
-                return []
+                return None            # not a case this check generates: cannot be replayed
             return run_http(case)[0]
         if case.get('family') == 'B':
             case = dict(case, n=max(1, min(8, int(case['n']))))
             case['faults'] = dict((k, v) for k, v in case.get('faults', {}).items()
                                   if v in ('eod4xx', 'rcpt4xx', 'rcpt5xx', 'then421', 'thenclose'))
             if case.get('size') not in (1, 2, 3, None):
-                return []
+                return None            # not a case this check generates: cannot be replayed
             if case.get('after_ehlo') not in (None, '421', 'stray'):
-                return []
+                return None            # not a case this check generates: cannot be replayed
             if case.get('cmd_t') is not None:
                 case['cmd_t'] = max(0.05, float(case['cmd_t']))
             if case.get('rset_delay') is not None:
                 case['rset_delay'] = max(0.0, min(1.0, float(case['rset_delay'])))
             return run_b(case)[0]
     except (KeyError, ValueError, TypeError):
-        return []
-    return []
+        return None            # not a case this check generates: cannot be replayed
+    return None            # not a case this check generates: cannot be replayed
